@@ -8,36 +8,34 @@ namespace Conc
 def holdsCore : Pc → Bool
   | .a1 | .a2 _ | .a3 _ | .a4 _ | .a6 _ | .a7 _ _ | .a8 _ => true
   | .r1 _ | .rErr | .rL _ | .rC _ _ _ | .rP _ _ | .s1 _ _ | .s2 _ _ | .s3 _ _ | .o1 => true
+  | .k1 _ _ | .k2 _ | .k3 _ => true
   | _ => false
 
-def holdsH : Pc → Option Hid
-  | .s1 h _ | .s2 h _ | .s3 h _ => some h
-  | .e1 _ h _ _ | .e2 _ h _ _ _ | .e3 _ h _ _ | .e4 _ h _ _ => some h
-  | _ => none
+/-- the handler locks a program counter holds (a forking thread holds several) -/
+def heldH : Pc → List Hid
+  | .s1 h _ | .s2 h _ | .s3 h _ => [h]
+  | .e1 _ h _ _ | .e2 _ h _ _ _ | .e3 _ h _ _ | .e4 _ h _ _ => [h]
+  | .k1 _ got | .k2 got | .k3 got => got
+  | _ => []
 
 structure LockInv (s : St) : Prop where
   c1 : ∀ t, holdsCore (s.pc t) = true → s.coreLock = some t
   c2 : ∀ t, s.coreLock = some t → holdsCore (s.pc t) = true
-  h1 : ∀ t h, holdsH (s.pc t) = some h → (s.hs h).lock = some t
-  h2 : ∀ t h, (s.hs h).lock = some t → holdsH (s.pc t) = some h
+  h1 : ∀ t h, h ∈ heldH (s.pc t) → (s.hs h).lock = some t
+  h2 : ∀ t h, (s.hs h).lock = some t → h ∈ heldH (s.pc t)
+  nd : ∀ t, (heldH (s.pc t)).Nodup
 
 theorem lockInv_init : LockInv ({} : St) := by
-  constructor <;> simp [holdsCore, holdsH]
+  constructor <;> simp [holdsCore, heldH]
 
-/-- a step that moves only `t`'s pc between two pcs with the same holdings and leaves locks alone -/
-theorem lock_move {s s' : St} {t : Tid} {p' : Pc} (h : LockInv s)
-    (hpc : s'.pc = upd s.pc t p') (hcl : s'.coreLock = s.coreLock)
-    (hhl : ∀ k, (s'.hs k).lock = (s.hs k).lock)
-    (hc : holdsCore p' = holdsCore (s.pc t)) (hh : holdsH p' = holdsH (s.pc t)) : LockInv s' := by
-  constructor
-  · intro u hu; rw [hpc] at hu; rw [hcl]
-    by_cases e : u = t
-    · subst e; simp at hu; exact h.c1 u (hc ▸ hu)
-    · simp [e] at hu; exact h.c1 u hu
-  · intro u hu; rw [hcl] at hu; rw [hpc]
-    by_cases e : u = t
-    · subst e; simp; rw [hc]; exact h.c2 u hu
-    · simp [e]; exact h.c2 u hu
+/-- frame for the three core-lock clauses when handler locks are untouched -/
+theorem lock_frameH {s s' : St} {t : Tid} {p' : Pc} (h : LockInv s)
+    (hpc : s'.pc = upd s.pc t p') (hhl : ∀ k, (s'.hs k).lock = (s.hs k).lock)
+    (hh : heldH p' = heldH (s.pc t)) :
+    (∀ u k, k ∈ heldH (s'.pc u) → (s'.hs k).lock = some u) ∧
+    (∀ u k, (s'.hs k).lock = some u → k ∈ heldH (s'.pc u)) ∧
+    (∀ u, (heldH (s'.pc u)).Nodup) := by
+  refine ⟨?_, ?_, ?_⟩
   · intro u k hu; rw [hpc] at hu; rw [hhl]
     by_cases e : u = t
     · subst e; simp at hu; exact h.h1 u k (hh ▸ hu)
@@ -46,12 +44,33 @@ theorem lock_move {s s' : St} {t : Tid} {p' : Pc} (h : LockInv s)
     by_cases e : u = t
     · subst e; simp; rw [hh]; exact h.h2 u k hu
     · simp [e]; exact h.h2 u k hu
+  · intro u; rw [hpc]
+    by_cases e : u = t
+    · subst e; simp; rw [hh]; exact h.nd u
+    · simp [e]; exact h.nd u
+
+/-- a step that moves only `t`'s pc between two pcs with the same holdings and leaves locks alone -/
+theorem lock_move {s s' : St} {t : Tid} {p' : Pc} (h : LockInv s)
+    (hpc : s'.pc = upd s.pc t p') (hcl : s'.coreLock = s.coreLock)
+    (hhl : ∀ k, (s'.hs k).lock = (s.hs k).lock)
+    (hc : holdsCore p' = holdsCore (s.pc t)) (hh : heldH p' = heldH (s.pc t)) : LockInv s' := by
+  obtain ⟨a, b, c⟩ := lock_frameH h hpc hhl hh
+  refine ⟨?_, ?_, a, b, c⟩
+  · intro u hu; rw [hpc] at hu; rw [hcl]
+    by_cases e : u = t
+    · subst e; simp at hu; exact h.c1 u (hc ▸ hu)
+    · simp [e] at hu; exact h.c1 u hu
+  · intro u hu; rw [hcl] at hu; rw [hpc]
+    by_cases e : u = t
+    · subst e; simp; rw [hc]; exact h.c2 u hu
+    · simp [e]; exact h.c2 u hu
 
 theorem lock_acqCore {s s' : St} {t : Tid} {p' : Pc} (h : LockInv s)
     (hpc : s'.pc = upd s.pc t p') (hfree : s.coreLock = none) (hcl : s'.coreLock = some t)
     (hhl : ∀ k, (s'.hs k).lock = (s.hs k).lock)
-    (hc : holdsCore p' = true) (hh : holdsH p' = holdsH (s.pc t)) : LockInv s' := by
-  constructor
+    (hc : holdsCore p' = true) (hh : heldH p' = heldH (s.pc t)) : LockInv s' := by
+  obtain ⟨a, b, c⟩ := lock_frameH h hpc hhl hh
+  refine ⟨?_, ?_, a, b, c⟩
   · intro u hu; rw [hpc] at hu; rw [hcl]
     by_cases e : u = t
     · rw [e]
@@ -59,41 +78,27 @@ theorem lock_acqCore {s s' : St} {t : Tid} {p' : Pc} (h : LockInv s)
   · intro u hu; rw [hcl] at hu; rw [hpc]
     have : u = t := (Option.some.inj hu).symm
     subst this; simpa using hc
-  · intro u k hu; rw [hpc] at hu; rw [hhl]
-    by_cases e : u = t
-    · subst e; simp at hu; exact h.h1 u k (hh ▸ hu)
-    · simp [e] at hu; exact h.h1 u k hu
-  · intro u k hu; rw [hhl] at hu; rw [hpc]
-    by_cases e : u = t
-    · subst e; simp; rw [hh]; exact h.h2 u k hu
-    · simp [e]; exact h.h2 u k hu
 
 theorem lock_relCore {s s' : St} {t : Tid} {p' : Pc} (h : LockInv s)
     (hpc : s'.pc = upd s.pc t p') (hold : holdsCore (s.pc t) = true) (hcl : s'.coreLock = none)
     (hhl : ∀ k, (s'.hs k).lock = (s.hs k).lock)
-    (hc : holdsCore p' = false) (hh : holdsH p' = holdsH (s.pc t)) : LockInv s' := by
+    (hc : holdsCore p' = false) (hh : heldH p' = heldH (s.pc t)) : LockInv s' := by
   have own := h.c1 t hold
-  constructor
+  obtain ⟨a, b, c⟩ := lock_frameH h hpc hhl hh
+  refine ⟨?_, ?_, a, b, c⟩
   · intro u hu; rw [hpc] at hu
     by_cases e : u = t
     · subst e; simp [hc] at hu
     · simp [e] at hu; have := h.c1 u hu; rw [own] at this; exact absurd (Option.some.inj this).symm e
   · intro u hu; rw [hcl] at hu; cases hu
-  · intro u k hu; rw [hpc] at hu; rw [hhl]
-    by_cases e : u = t
-    · subst e; simp at hu; exact h.h1 u k (hh ▸ hu)
-    · simp [e] at hu; exact h.h1 u k hu
-  · intro u k hu; rw [hhl] at hu; rw [hpc]
-    by_cases e : u = t
-    · subst e; simp; rw [hh]; exact h.h2 u k hu
-    · simp [e]; exact h.h2 u k hu
 
-theorem lock_acqH {s s' : St} {t : Tid} {p' : Pc} {x : Hid} (h : LockInv s)
+/-- frame for the two core-lock clauses when the core lock is untouched -/
+theorem lock_frameC {s s' : St} {t : Tid} {p' : Pc} (h : LockInv s)
     (hpc : s'.pc = upd s.pc t p') (hcl : s'.coreLock = s.coreLock)
-    (hfree : (s.hs x).lock = none) (hnone : holdsH (s.pc t) = none)
-    (hx : (s'.hs x).lock = some t) (hhl : ∀ k, k ≠ x → (s'.hs k).lock = (s.hs k).lock)
-    (hc : holdsCore p' = holdsCore (s.pc t)) (hh : holdsH p' = some x) : LockInv s' := by
-  constructor
+    (hc : holdsCore p' = holdsCore (s.pc t)) :
+    (∀ u, holdsCore (s'.pc u) = true → s'.coreLock = some u) ∧
+    (∀ u, s'.coreLock = some u → holdsCore (s'.pc u) = true) := by
+  refine ⟨?_, ?_⟩
   · intro u hu; rw [hpc] at hu; rw [hcl]
     by_cases e : u = t
     · subst e; simp at hu; exact h.c1 u (hc ▸ hu)
@@ -102,9 +107,26 @@ theorem lock_acqH {s s' : St} {t : Tid} {p' : Pc} {x : Hid} (h : LockInv s)
     by_cases e : u = t
     · subst e; simp; rw [hc]; exact h.c2 u hu
     · simp [e]; exact h.c2 u hu
+
+theorem lock_acqH {s s' : St} {t : Tid} {p' : Pc} {x : Hid} (h : LockInv s)
+    (hpc : s'.pc = upd s.pc t p') (hcl : s'.coreLock = s.coreLock)
+    (hhs : s'.hs = upd s.hs x { s.hs x with lock := some t })
+    (hfree : (s.hs x).lock = none)
+    (hc : holdsCore p' = holdsCore (s.pc t)) (hh : heldH p' = x :: heldH (s.pc t)) : LockInv s' := by
+  have hx : (s'.hs x).lock = some t := by rw [hhs]; simp
+  have hhl : ∀ k, k ≠ x → (s'.hs k).lock = (s.hs k).lock := by intro k hk; rw [hhs]; simp [hk]
+  obtain ⟨a, b⟩ := lock_frameC h hpc hcl hc
+  have xnew : x ∉ heldH (s.pc t) := fun hm => by
+    have := h.h1 t x hm; rw [hfree] at this; cases this
+  refine ⟨a, b, ?_, ?_, ?_⟩
   · intro u k hu; rw [hpc] at hu
     by_cases e : u = t
-    · subst e; simp [hh] at hu; subst hu; exact hx
+    · subst e; simp [hh] at hu
+      rcases hu with hu | hu
+      · subst hu; exact hx
+      · have old := h.h1 u k hu
+        have : k ≠ x := fun ek => xnew (ek ▸ hu)
+        rw [hhl k this]; exact old
     · simp [e] at hu
       have old := h.h1 u k hu
       by_cases ek : k = x
@@ -112,31 +134,33 @@ theorem lock_acqH {s s' : St} {t : Tid} {p' : Pc} {x : Hid} (h : LockInv s)
       · rw [hhl k ek]; exact old
   · intro u k hu; rw [hpc]
     by_cases ek : k = x
-    · subst ek; rw [hx] at hu; have : u = t := (Option.some.inj hu).symm; subst this; simpa using hh
+    · subst ek; rw [hx] at hu; have : u = t := (Option.some.inj hu).symm; subst this; simp [hh]
     · rw [hhl k ek] at hu
       have old := h.h2 u k hu
       by_cases e : u = t
-      · subst e; rw [hnone] at old; cases old
+      · subst e; simp [hh]; exact Or.inr old
       · simp [e]; exact old
+  · intro u; rw [hpc]
+    by_cases e : u = t
+    · subst e; simp [hh]; exact ⟨xnew, h.nd u⟩
+    · simp [e]; exact h.nd u
 
 theorem lock_relH {s s' : St} {t : Tid} {p' : Pc} {x : Hid} (h : LockInv s)
     (hpc : s'.pc = upd s.pc t p') (hcl : s'.coreLock = s.coreLock)
-    (hold : holdsH (s.pc t) = some x)
-    (hx : (s'.hs x).lock = none) (hhl : ∀ k, k ≠ x → (s'.hs k).lock = (s.hs k).lock)
-    (hc : holdsCore p' = holdsCore (s.pc t)) (hh : holdsH p' = none) : LockInv s' := by
+    (hhs : s'.hs = upd s.hs x { s.hs x with lock := none })
+    (hold : x ∈ heldH (s.pc t))
+    (hc : holdsCore p' = holdsCore (s.pc t)) (hh : heldH p' = (heldH (s.pc t)).erase x) : LockInv s' := by
+  have hx : (s'.hs x).lock = none := by rw [hhs]; simp
+  have hhl : ∀ k, k ≠ x → (s'.hs k).lock = (s.hs k).lock := by intro k hk; rw [hhs]; simp [hk]
   have own := h.h1 t x hold
-  constructor
-  · intro u hu; rw [hpc] at hu; rw [hcl]
-    by_cases e : u = t
-    · subst e; simp at hu; exact h.c1 u (hc ▸ hu)
-    · simp [e] at hu; exact h.c1 u hu
-  · intro u hu; rw [hcl] at hu; rw [hpc]
-    by_cases e : u = t
-    · subst e; simp; rw [hc]; exact h.c2 u hu
-    · simp [e]; exact h.c2 u hu
+  have ndt := h.nd t
+  obtain ⟨a, b⟩ := lock_frameC h hpc hcl hc
+  refine ⟨a, b, ?_, ?_, ?_⟩
   · intro u k hu; rw [hpc] at hu
     by_cases e : u = t
     · subst e; simp [hh] at hu
+      have hk := (List.Nodup.mem_erase_iff ndt).mp hu
+      rw [hhl k hk.1]; exact h.h1 u k hk.2
     · simp [e] at hu
       have old := h.h1 u k hu
       by_cases ek : k = x
@@ -148,19 +172,23 @@ theorem lock_relH {s s' : St} {t : Tid} {p' : Pc} {x : Hid} (h : LockInv s)
     · rw [hhl k ek] at hu
       have old := h.h2 u k hu
       by_cases e : u = t
-      · subst e; rw [hold] at old; exact absurd (Option.some.inj old).symm ek
+      · subst e; simp [hh]; exact (List.Nodup.mem_erase_iff ndt).mpr ⟨ek, old⟩
       · simp [e]; exact old
+  · intro u; rw [hpc]
+    by_cases e : u = t
+    · subst e; simp [hh]; exact ndt.erase x
+    · simp [e]; exact h.nd u
 
-/-- closes the side conditions of the five lemmas above on a concrete arm of `step` -/
+/-- closes the side conditions of the lemmas above on a concrete arm of `step` -/
 macro "lk_close" : tactic => `(tactic| first
   | rfl
   | assumption
   | (simp only [*]; rfl)
   | (intro k; first | rfl | (simp only [upd]; split <;> simp_all; done))
   | (intro k hk; simp [setPc, upd, hk]; done)
-  | (intro k hk; simp [*, holdsH] at hk; simp [setPc, upd, hk]; done)
-  | (simp [*, holdsCore, holdsH, setPc, upd]; done)
-  | (simp_all [holdsCore, holdsH, setPc, upd]; done))
+  | (intro k hk; simp [*, heldH] at hk; simp [setPc, upd, hk]; done)
+  | (simp [*, holdsCore, heldH, setPc, upd]; done)
+  | (simp_all [holdsCore, heldH, setPc, upd]; done))
 
 theorem lockInv_step {s s' : St} {t : Tid} {lab : Lab} (h : LockInv s) (hs : step s t lab = some s') :
     LockInv s' := by
@@ -172,8 +200,8 @@ theorem lockInv_step {s s' : St} {t : Tid} {lab : Lab} (h : LockInv s) (hs : ste
      | (refine lock_move h rfl rfl ?_ ?_ ?_ <;> lk_close)
      | (refine lock_acqCore h rfl ?_ rfl ?_ ?_ ?_ <;> lk_close)
      | (refine lock_relCore h rfl ?_ rfl ?_ ?_ ?_ <;> lk_close)
-     | (refine lock_acqH h (hh := rfl) rfl rfl ?_ ?_ ?_ ?_ ?_ <;> lk_close)
-     | (refine lock_relH (x := (holdsH (s.pc t)).getD 0) h rfl rfl ?_ ?_ ?_ ?_ ?_ <;> lk_close))
+     | (refine lock_acqH h rfl rfl rfl ?_ ?_ ?_ <;> lk_close)
+     | (refine lock_relH h rfl rfl rfl ?_ ?_ ?_ <;> lk_close))
 
 theorem lockInv_run (s : St) (h : LockInv s) : ∀ sched, LockInv (run s sched) := by
   intro sched
